@@ -356,7 +356,10 @@ func (s *Spec) Step(ctx context.Context, st *State, pending interface{}, c *Cont
 		if bs == nil {
 			bs = NewBindings()
 		}
-		bs, _ = bs.Extendm("error", "Action node followed no branch",
+		// Extend a copy: an action may have returned the very
+		// map it was given (as a nil *FuncAction does), which
+		// is the caller's st.Bs.
+		bs, _ = bs.Copy().Extendm("error", "Action node followed no branch",
 			"lastNode", givenState.NodeName,
 			"lastBindings", givenState.Bs.Copy())
 		stride.To = &State{
